@@ -7,14 +7,21 @@ package main
 // (elasticsearch, http, splunk, loki), a TCP listener that accepts and discards (socket, gelf) or a closed port
 // ("connection refused": every plugin, clickhouse included).
 //
-//	case = (kind dq retry fatal strict split workers bsize nbatch (pre ...) tail)
+//	case = (kind dq retry fatal strict split workers bsize nbatch (pre ...) tail [eopts])
 //	   kind     0 elasticsearch, 1 http, 2 splunk, 3 loki, 4 socket, 5 clickhouse, 6 gelf
 //	   dq       1: a dead-queue output is configured on the router
 //	   retry    the plugin's `retry` option (BackoffOpts.AttemptNum); negative = retry forever
 //	   fatal    fatal_on_failed_insert; strict: `strict` (elasticsearch, http); split: split_batch (elasticsearch, http)
 //	   workers  workers_count; bsize: batch_size; nbatch: the case sends bsize*nbatch events (whole batches, flush timeout 1 h)
 //	   pre/tail the answers of the far end: request k gets status pre[k], every later one `tail`.  Status 0 = connection
-//	            refused (only as tail with empty pre: the endpoint is a closed port), 1 = a listener that accepts (socket, gelf)
+//	            refused (only as tail with empty pre: the endpoint is a closed port), 1 = a listener that accepts (socket, gelf).
+//	            An answer a >= 1000 is status a % 1000 with the body rBodies[a / 1000] (below 1000: body 0, {"code":0})
+//	   eopts    optional bit set of elasticsearch options (kind 0 only; absent = 0): 1 process_response (the only one the
+//	            specification looks at: reportESErrors judges the body of a 2xx answer), 2 use_gzip, 4 api_key, 8 username +
+//	            password, 16 ingest_pipeline, 32 endpoint with a trailing slash, 64 index_format "v-%-%" with index_values
+//	            [level, @time] over events whose `level` is a string / a string with a quote / a number / absent,
+//	            128 events of ~700 bytes (out() drops its oversized buffer on the next call), 256 TLS far end + ca_cert,
+//	            512 index_values [] (Start falls back to @time)
 //	observed = (requests fatals ((m h d) ...))
 //	   requests number of requests the fake HTTP server saw (0 for the connection-oriented kinds and for a closed port)
 //	   fatals   number of Fatal-level log entries (the logger's fatal hook records instead of exiting)
@@ -22,13 +29,19 @@ package main
 //	   (Router.Fail -> dead-queue plugin Out), d = Commit calls issued by the dead queue's own batcher
 
 import (
+	"bytes"
+	"compress/gzip"
 	"context"
+	"encoding/base64"
+	"encoding/json"
+	"encoding/pem"
 	"fmt"
 	"io"
 	"net"
 	"net/http"
 	"net/http/httptest"
 	"strconv"
+	"strings"
 	"sync"
 	"sync/atomic"
 	"time"
@@ -67,13 +80,43 @@ const rRefused = "127.0.0.1:1" // nothing listens on tcpmux: connect() is refuse
 
 type rCase struct {
 	kind, dq, retry, fatal, strict, split, workers, bsize, nbatch int
-	pre                                                          []int
-	tail                                                         int
+	pre                                                           []int
+	tail                                                          int
+	eopts                                                         int
+}
+
+// elasticsearch option bits (case element 12)
+const (
+	eoPresp = 1 << iota
+	eoGzip
+	eoAPIKey
+	eoBasic
+	eoIngest
+	eoSlash
+	eoIndexFmt
+	eoBig
+	eoTLS
+	eoNoIdxValues
+)
+
+// bodies the fake HTTP server can put under an answer: answer a = status + 1000 * index
+var rBodies = []string{
+	`{"code":0}`, // what splunk's response parser wants to see under a 2xx
+	`<html>502 bad gateway</html>`,
+	`{"took":5,"errors":true,"items":[{"index":{"_index":"i","status":400,"error":{"type":"mapper_parsing_exception","reason":"r"}}},{"index":{"_index":"i","status":201}}]}`,
+	`{"took":1,"errors":true,"items":[]}`,
+	`{"took":1,"errors":true,"items":[{"create":{"status":201}},{"index":{"status":500}},{"index":{"status":200}}]}`,
+	`{"took":1,"errors":false,"items":[]}`,
+	`{"code":5,"text":"no such index"}`,
 }
 
 func (rc rCase) sx() hx.Sx {
-	return hx.L(hx.I(rc.kind), hx.I(rc.dq), hx.I(rc.retry), hx.I(rc.fatal), hx.I(rc.strict), hx.I(rc.split), hx.I(rc.workers),
-		hx.I(rc.bsize), hx.I(rc.nbatch), ints(rc.pre), hx.I(rc.tail))
+	it := []hx.Sx{hx.I(rc.kind), hx.I(rc.dq), hx.I(rc.retry), hx.I(rc.fatal), hx.I(rc.strict), hx.I(rc.split), hx.I(rc.workers),
+		hx.I(rc.bsize), hx.I(rc.nbatch), ints(rc.pre), hx.I(rc.tail)}
+	if rc.eopts != 0 {
+		it = append(it, hx.I(rc.eopts))
+	}
+	return hx.L(it...)
 }
 
 func ints(xs []int) hx.Sx { return hx.List(xs, func(i int) hx.Sx { return hx.I(i) }) }
@@ -85,6 +128,9 @@ func rDecode(cs hx.Sx) rCase {
 	for _, p := range hx.Items(it[9]) {
 		rc.pre = append(rc.pre, int(hx.Int(p)))
 	}
+	if len(it) > 11 {
+		rc.eopts = g(11)
+	}
 	return rc
 }
 
@@ -94,21 +140,83 @@ type rServer struct {
 	pre  []int
 	tail int
 	reqs int
+	// what an elasticsearch request must look like under the case's options (checked when es is set; not part of the
+	// observable: oracle 'es-request-shape')
+	es             bool
+	wantAuth       string
+	wantGzip       bool
+	wantIngest     string
+	wantIndexStart string
+	shape          []string
 }
 
 func (s *rServer) ServeHTTP(w http.ResponseWriter, req *http.Request) {
-	_, _ = io.Copy(io.Discard, req.Body)
+	body, _ := io.ReadAll(req.Body)
+	var bad []string
+	if s.es {
+		bad = s.checkES(req, body)
+	}
 	s.mu.Lock()
-	st := s.tail
+	a := s.tail
 	if len(s.pre) > 0 {
-		st, s.pre = s.pre[0], s.pre[1:]
+		a, s.pre = s.pre[0], s.pre[1:]
 	}
 	s.reqs++
+	s.shape = append(s.shape, bad...)
 	s.mu.Unlock()
+	st, bi := a%1000, a/1000
+	if bi < 0 || bi >= len(rBodies) {
+		bi = 0
+	}
 	w.WriteHeader(st)
 	if st != http.StatusNoContent {
-		_, _ = w.Write([]byte(`{"code":0}`)) // what splunk's response parser wants to see under a 2xx
+		_, _ = w.Write([]byte(rBodies[bi]))
 	}
+}
+
+// the request the elasticsearch output builds from its options: POST <endpoint>/_bulk?_source=false[&pipeline=...], the
+// authorisation header, gzip iff use_gzip, a body of (index line, document line) pairs of valid JSON
+func (s *rServer) checkES(req *http.Request, body []byte) (bad []string) {
+	if req.Method != http.MethodPost || req.URL.Path != "/_bulk" {
+		bad = append(bad, "method/path "+req.Method+" "+req.URL.Path)
+	}
+	q := req.URL.Query()
+	if q.Get("_source") != "false" || q.Get("pipeline") != s.wantIngest {
+		bad = append(bad, "query "+req.URL.RawQuery)
+	}
+	if got := req.Header.Get("Authorization"); got != s.wantAuth {
+		bad = append(bad, "authorization "+got)
+	}
+	if gz := req.Header.Get("Content-Encoding") == "gzip"; gz != s.wantGzip {
+		bad = append(bad, "content-encoding "+req.Header.Get("Content-Encoding"))
+	} else if gz {
+		zr, err := gzip.NewReader(bytes.NewReader(body))
+		if err != nil {
+			return append(bad, "gzip: "+err.Error())
+		}
+		if body, err = io.ReadAll(zr); err != nil {
+			return append(bad, "gzip: "+err.Error())
+		}
+	}
+	lines := strings.Split(strings.TrimSuffix(string(body), "\n"), "\n")
+	if len(lines)%2 != 0 || len(body) == 0 {
+		return append(bad, fmt.Sprintf("%d lines", len(lines)))
+	}
+	for i, l := range lines {
+		var v map[string]any
+		if err := json.Unmarshal([]byte(l), &v); err != nil {
+			bad = append(bad, "line is not a JSON object: "+l)
+			continue
+		}
+		if i%2 == 0 {
+			idx, _ := v["index"].(map[string]any)
+			name, _ := idx["_index"].(string)
+			if idx == nil || !strings.HasPrefix(name, s.wantIndexStart) {
+				bad = append(bad, "index line: "+l)
+			}
+		}
+	}
+	return bad
 }
 
 func rAcceptor() (addr string, stop func()) {
@@ -194,12 +302,29 @@ func b2s(b int) bool { return b != 0 }
 
 // one case ---------------------------------------------------------------------------------------------------------------
 func execRoute(cs hx.Sx) hx.Sx {
+	obs, _ := execRouteT(cs)
+	return obs
+}
+
+// execRouteT is execRoute plus what the fake elasticsearch server found wrong with the requests (not part of the observable)
+func execRouteT(cs hx.Sx) (hx.Sx, []string) {
+	obs, srv := execRoute1(cs)
+	if srv == nil {
+		return obs, nil
+	}
+	srv.mu.Lock()
+	defer srv.mu.Unlock()
+	return obs, srv.shape
+}
+
+func execRoute1(cs hx.Sx) (hx.Sx, *rServer) {
 	rc := rDecode(cs)
 	n := rc.bsize * rc.nbatch
-	stuck := func(code int) hx.Sx { return hx.L(hx.I(-1), hx.I(code), hx.L()) }
-	if rc.kind < 0 || rc.kind > rkGelf || n <= 0 || n > 4096 || rc.workers < 1 {
+	stuck := func(code int) (hx.Sx, *rServer) { return hx.L(hx.I(-1), hx.I(code), hx.L()), nil }
+	if rc.kind < 0 || rc.kind > rkGelf || n <= 0 || n > 4096 || rc.workers < 1 || rc.eopts < 0 || (rc.eopts != 0 && rc.kind != rkES) {
 		return stuck(1)
 	}
+	has := func(bit int) bool { return rc.eopts&bit != 0 }
 	refused := rc.tail == 0 && len(rc.pre) == 0
 	var cleanup []func()
 	defer func() {
@@ -210,10 +335,17 @@ func execRoute(cs hx.Sx) hx.Sx {
 
 	srv := &rServer{pre: append([]int(nil), rc.pre...), tail: rc.tail}
 	url, addr := "http://"+rRefused, rRefused
+	caCert := ""
 	switch {
 	case refused:
 	case rc.kind <= rkLoki:
-		hs := httptest.NewServer(srv)
+		hs := httptest.NewUnstartedServer(srv)
+		if has(eoTLS) {
+			hs.StartTLS()
+			caCert = string(pem.EncodeToMemory(&pem.Block{Type: "CERTIFICATE", Bytes: hs.Certificate().Raw}))
+		} else {
+			hs.Start()
+		}
 		cleanup = append(cleanup, hs.Close)
 		url = hs.URL
 	default:
@@ -232,7 +364,39 @@ func execRoute(cs hx.Sx) hx.Sx {
 	switch rc.kind {
 	case rkES:
 		factory = esout.Factory
-		text = fmt.Sprintf(`{"endpoints":["%s"],"strict":%v,"split_batch":%v,"process_response":false,"connection_timeout":"5s",%s}`, url, b2s(rc.strict), b2s(rc.split), common)
+		extra := ""
+		srv.es, srv.wantIndexStart = true, "file-d-"
+		if has(eoGzip) {
+			extra += `"use_gzip":true,"gzip_compression_level":"best-speed",`
+			srv.wantGzip = true
+		}
+		if has(eoBasic) {
+			extra += `"username":"u","password":"p",`
+			srv.wantAuth = "Basic " + base64.StdEncoding.EncodeToString([]byte("u:p"))
+		}
+		if has(eoAPIKey) { // overrides username / password
+			extra += `"api_key":"a2V5",`
+			srv.wantAuth = "ApiKey a2V5"
+		}
+		if has(eoIngest) {
+			extra += `"ingest_pipeline":"ing",`
+			srv.wantIngest = "ing"
+		}
+		if has(eoIndexFmt) {
+			extra += `"index_format":"v-%-%","index_values":["level","@time"],`
+			srv.wantIndexStart = "v-"
+		} else if has(eoNoIdxValues) {
+			extra += `"index_values":[],`
+		}
+		if caCert != "" {
+			pemText, _ := json.Marshal(caCert)
+			extra += `"ca_cert":` + string(pemText) + `,`
+		}
+		ep := url
+		if has(eoSlash) {
+			ep += "/"
+		}
+		text = fmt.Sprintf(`{"endpoints":["%s"],"strict":%v,"split_batch":%v,"process_response":%v,%s"connection_timeout":"5s",%s}`, ep, b2s(rc.strict), b2s(rc.split), has(eoPresp), extra, common)
 	case rkHTTP:
 		factory = httpout.Factory
 		text = fmt.Sprintf(`{"endpoints":["%s"],"strict":%v,"split_batch":%v,"connection_timeout":"5s",%s}`, url, b2s(rc.strict), b2s(rc.split), common)
@@ -294,7 +458,15 @@ func execRoute(cs hx.Sx) hx.Sx {
 		}
 		defer stop()
 		for i := 0; i < n; i++ {
-			root, err := insaneJSON.DecodeString(fmt.Sprintf(`{"message":"m%d","level":"info"}`, i))
+			doc := fmt.Sprintf(`{"message":"m%d","level":"info"}`, i)
+			if rc.eopts != 0 { // `level` feeds the index name under eoIndexFmt: string / string with a quote / number / absent / empty
+				msg := fmt.Sprintf("m%d", i)
+				if has(eoBig) {
+					msg += strings.Repeat("x", 700)
+				}
+				doc = fmt.Sprintf(`{"message":"%s"%s}`, msg, []string{`,"level":"info"`, `,"level":"a\"b"`, `,"level":7`, ``, `,"level":""`}[i%5])
+			}
+			root, err := insaneJSON.DecodeString(doc)
 			if err != nil {
 				panic(err)
 			}
@@ -352,7 +524,7 @@ func execRoute(cs hx.Sx) hx.Sx {
 	}); p != "" {
 		return stuck(2)
 	}
-	return obs
+	return obs, srv
 }
 
 // generator --------------------------------------------------------------------------------------------------------------
@@ -360,6 +532,7 @@ type rJob struct {
 	stream string
 	rc     rCase
 	obs    hx.Sx
+	shape  []string
 }
 
 // statuses the fake server can be told to answer with, by what they mean to the xhttp client / the plugins:
@@ -462,6 +635,80 @@ func genRouteJobs(c *hmain.Ctx) []*rJob {
 		rc.tail = []int{rOkStatus(kind), 400, 413, 500, 0}[r.Intn(5)]
 		add("route-two-workers", rc)
 	}
+	// E. the acknowledgement's BODY (elasticsearch.go reportESErrors under process_response, the default; splunk's
+	//    parseSplunkError): a 2xx whose body the plugin cannot read is a failed attempt (retried, then given up: dead queue /
+	//    error callback), a readable body that reports indexing errors is a delivery.  Exhaustive: {elasticsearch with / without
+	//    process_response, splunk} x dead queue x retry 0/1 x {every body under 200; unreadable once, then fine; unreadable
+	//    after a 500; unreadable under 201 / 202}
+	for _, ko := range [][2]int{{rkES, eoPresp}, {rkES, eoGzip}, {rkSplunk, 0}} {
+		for dq := 0; dq <= 1; dq++ {
+			for _, retry := range []int{0, 1} {
+				base := rCase{kind: ko[0], eopts: ko[1], dq: dq, retry: retry, workers: 1, bsize: 2, nbatch: 1, fatal: retry}
+				for b := 1; b < len(rBodies); b++ {
+					rc := base
+					rc.tail = 200 + 1000*b
+					add("route-ack-body", rc)
+				}
+				for _, h := range [][]int{{1200}, {500, 1201}, {1202, 1200}, {6200, 3200}} {
+					rc := base
+					rc.pre, rc.tail = h, 200
+					add("route-ack-body", rc)
+				}
+			}
+		}
+	}
+	// F. elasticsearch options the way of a batch must not depend on (gzip, api key / basic authorisation, ingest pipeline,
+	//    trailing slash, index name pattern over string / quoted / numeric / absent fields, oversized events, TLS with ca_cert,
+	//    empty index_values) x process_response x split_batch, scripts mixing statuses and bodies; the fake server checks the
+	//    shape of every request (oracle 'es-request-shape')
+	for _, bit := range []int{eoGzip, eoAPIKey, eoBasic, eoAPIKey | eoBasic, eoIngest, eoSlash, eoIndexFmt, eoBig, eoTLS, eoNoIdxValues} {
+		for dq := 0; dq <= 1; dq++ {
+			rc := rCase{kind: rkES, eopts: bit | eoPresp*dq, dq: dq, retry: 1, workers: 1, bsize: 5, nbatch: 2, pre: []int{500, 2200, 503, 502, 500}, tail: 200}
+			add("route-es-options", rc)
+		}
+	}
+	for i := 0; i < 30*c.Scale; i++ {
+		rc := rCase{kind: rkES, dq: r.Intn(2), retry: r.Range(-1, 2), workers: 1, bsize: r.Range(1, 6), nbatch: r.Range(1, 4), fatal: r.Intn(2), tail: 200}
+		for _, bit := range []int{eoPresp, eoGzip, eoAPIKey, eoBasic, eoIngest, eoSlash, eoIndexFmt, eoBig, eoNoIdxValues} {
+			if r.Chance(1, 3) {
+				rc.eopts |= bit
+			}
+		}
+		if r.Chance(1, 6) {
+			rc.eopts |= eoTLS
+		}
+		if rc.eopts == 0 {
+			rc.eopts = eoPresp
+		}
+		if r.Chance(1, 3) {
+			rc.split = 1
+		}
+		for k := r.Range(0, 7); k > 0; k-- {
+			switch r.Intn(5) {
+			case 0:
+				rc.pre = append(rc.pre, 200+r.Intn(3))
+			case 1:
+				rc.pre = append(rc.pre, 1200+r.Intn(3)) // unreadable acknowledgement
+			case 2:
+				rc.pre = append(rc.pre, 200+1000*r.Range(2, len(rBodies)-1))
+			case 3:
+				rc.pre = append(rc.pre, []int{500, 502, 503, 429, 1500}[r.Intn(5)])
+			default:
+				rc.pre = append(rc.pre, []int{400, 413, 1413}[r.Intn(3)])
+			}
+		}
+		if rc.retry >= 0 {
+			switch r.Intn(6) {
+			case 0:
+				rc.tail = 1200
+			case 1:
+				rc.tail = 2201
+			case 2:
+				rc.tail = 413
+			}
+		}
+		add("route-es-options", rc)
+	}
 	return jobs
 }
 
@@ -475,7 +722,7 @@ func startRouteJobs(jobs []*rJob) (wait func()) {
 			defer wg.Done()
 			sem <- struct{}{}
 			defer func() { <-sem }()
-			j.obs = execRoute(j.rc.sx())
+			j.obs, j.shape = execRouteT(j.rc.sx())
 		}()
 	}
 	return wg.Wait
@@ -494,6 +741,21 @@ func emitRouteJobs(c *hmain.Ctx, jobs []*rJob) {
 			way += "scripted"
 		}
 		c.W.Count(fmt.Sprintf("route %s dq=%d %s", rKindName[rc.kind], rc.dq, way))
+		if rc.kind == rkES && rc.eopts != 0 {
+			for bit, name := range map[int]string{eoPresp: "process_response", eoGzip: "use_gzip", eoAPIKey: "api_key", eoBasic: "username/password",
+				eoIngest: "ingest_pipeline", eoSlash: "endpoint with trailing slash", eoIndexFmt: "index_format over event fields", eoBig: "oversized events",
+				eoTLS: "TLS + ca_cert", eoNoIdxValues: "empty index_values"} {
+				if rc.eopts&bit != 0 {
+					c.W.Count("route elasticsearch option: " + name)
+				}
+			}
+			c.W.Oracle("es-request-shape", len(j.shape) == 0, fmt.Sprintf("the fake elasticsearch server saw a request that does not match the options: %v; case %s", j.shape, hx.String(rc.sx())))
+		}
+		for _, a := range append(append([]int(nil), rc.pre...), rc.tail) {
+			if a >= 1000 && a%1000 >= 200 && a%1000 <= 202 {
+				c.W.Count(fmt.Sprintf("route %s: 2xx answered with body class %d", rKindName[rc.kind], a/1000))
+			}
+		}
 		c.W.Case(j.stream, 2, rc.sx(), j.obs, true)
 	}
 }
